@@ -71,7 +71,8 @@ ASSUMPTIONS = ["a detached container (replaced on its owner, still held by the c
                "common fragment only: no wildcards/metadata/?/* names, no ListenerGroup, no 1-/2-argument (DST) "
                "handlers in the model; dispatch other than 'same' is outside the agreement statement (the handler itself then "
                "runs at another time); what IS checked for dispatch='new'/'ui' is that the machinery's own re-registration "
-               "handlers stay synchronous (extra_checks; known finding F105-legacy-dict-dispatch for Dict links) "
+               "handlers stay synchronous for every link kind (extra_checks + C16_reregistration_sync; F105-legacy-dict-dispatch, "
+               "repaired in /repo 257ca45) "
                "(1/2 arguments: oracle only, with ':' links or on the two-level 'child.value' shape; "
                "None is not assigned to the link there: handle_dst raises TraitError), dispatch='same', priority=False",
                "ListenerParser: translated (legacysrc -> Generated/LegacyProg.lean `parse_item` / `pprog`, language "
@@ -157,7 +158,8 @@ DISPATCH_SIG = "reregistration-dispatch:dict-link-uses-handler-dispatch"
 def extra_checks(ctx):
     """White box, deterministic: the listener machinery's OWN re-registration handlers (handle_simple / handle_list(_items) /
     handle_dict(_items)) must run synchronously whatever dispatch the user's handler asked for; otherwise the set of hooked
-    objects lags behind the graph (finding F105-legacy-dict-dispatch: _register_dict passes dispatch=self.dispatch)."""
+    objects lags behind the graph.  Regression probe for finding F105-legacy-dict-dispatch (_register_dict passed
+    dispatch=self.dispatch; repaired in /repo 257ca45): a hit is a plain violation.  Lean side: C16_reregistration_sync."""
     from traits.trait_notifiers import TraitChangeNotifyWrapper
     Node = G.node_class()
     hits = []
